@@ -651,20 +651,26 @@ Proof.
 Qed.
 
 (** * Transactions (framed operations) and histories *)
+Definition unframed (o : op) : Prop := match o with Framed _ _ => False | _ => True end.
+
+Lemma step_unframed s o : unframed o ->
+  step s o = match exec s o with Some s' => (s', true) | None => (s, false) end.
+Proof. destruct o; simpl; intro H; try reflexivity; contradiction. Qed.
+
 Lemma step_ok s o : Inv s ->
   Inv (fst (step s o)) /\ forall m, In m (reg s) -> In m (reg (fst (step s o))) /\ slack s m <= slack (fst (step s o)) m.
 Proof.
   revert s. induction o; intros s I;
-    try (simpl; match goal with |- context [exec s ?o] => destruct (exec s o) as [s'|] eqn:E end;
+    try (rewrite step_unframed by exact Logic.I;
+         match goal with |- context [exec s ?o] => destruct (exec s o) as [s'|] eqn:E end;
          [exact (exec_ok _ _ _ I E) | apply same_ok; exact I]).
   simpl. match goal with f : frame |- _ => destruct f end; simpl; try (apply same_ok; exact I); apply IHo; exact I.
 Qed.
 
 Lemma init_inv : Inv init.
 Proof.
-  constructor; simpl; try (intros; contradiction); try (intros; lia); try constructor.
-  - intros t b H. discriminate.
-  - intros. reflexivity.
+  constructor; simpl; try (intros; contradiction); try (intros; lia); try constructor;
+    try (intros; discriminate); try (intros; reflexivity).
 Qed.
 
 Lemma run_inv s ops : Inv s -> Inv (run s ops).
@@ -724,7 +730,8 @@ Qed.
 Lemma rejected_changes_nothing s o : snd (step s o) = false -> fst (step s o) = s.
 Proof.
   revert s. induction o; intro s;
-    try (simpl; match goal with |- context [exec s ?o] => destruct (exec s o) end; simpl; [discriminate | reflexivity]).
+    try (rewrite step_unframed by exact Logic.I;
+         match goal with |- context [exec s ?o] => destruct (exec s o) end; simpl; [discriminate | reflexivity]).
   simpl. match goal with f : frame |- _ => destruct f end; simpl; try reflexivity; try discriminate; apply IHo.
 Qed.
 
